@@ -274,6 +274,35 @@ def check_node_valid(w0: int, w1: int, ign: int, opt: int) -> bool:
         return outcome == "ValueError"
     return outcome == "ok"
 
+def check_conservation_options(d: int, greedy: int, flowsafe: int, safepaths: int) -> bool:
+    """
+    pre: -1 <= d <= 1
+    pre: 0 <= greedy <= 1 and 0 <= flowsafe <= 1 and 0 <= safepaths <= 1
+    post: _
+    """
+    # a non-conserving flow must be rejected whatever optimisation options are switched on or off
+    dd, g_, f_, s_ = _conc(d, -1, 1), _conc(greedy, 0, 1), _conc(flowsafe, 0, 1), _conc(safepaths, 0, 1)
+    if d == 0:
+        pass
+    with NoTracing():
+        G = nx.DiGraph()
+        # node a: in 5, out (4 + d) + 1 -> conserving iff d == 0
+        G.add_edge("s", "a", flow=5); G.add_edge("a", "b", flow=4 + dd); G.add_edge("a", "c", flow=1); G.add_edge("b", "t", flow=4 + dd); G.add_edge("c", "t", flow=1)
+        kw = dict(weight_type=int, optimization_options=dict([("optimize_with_greedy", bool(g_)), ("optimize_with_flow_safe_paths", bool(f_)), ("optimize_with_safe_paths", bool(s_) and not f_)]))
+        if KMODEL:
+            kw["k"] = 2
+        try:
+            m = getattr(fp, CLS)(G, "flow", **kw)
+            m.solve()
+            outcome = "ok"
+        except ValueError:
+            outcome = "ValueError"
+        except Exception as e:
+            outcome = type(e).__name__
+    if dd != 0:
+        return outcome == "ValueError"
+    return outcome == "ok"
+
 BIG = [1, 1000, 3000000000, 2 ** 45]
 
 def check_magnitude(scale: int, d: int, where: int, asfloat: int) -> bool:
@@ -368,6 +397,7 @@ CLASSES = {
 def gen_tasks(tier, seed):
     tasks = [{"cls": c, "fn": fn, **v} for fn in ("check_structural", "check_numeric", "check_ignore", "check_reuse") for c, v in CLASSES.items()]
     tasks += [{"cls": c, "fn": "check_magnitude", **v} for c, v in CLASSES.items() if v["flowdec"]]
+    tasks += [{"cls": c, "fn": "check_conservation_options", **v} for c, v in CLASSES.items() if v["flowdec"] and not v["cyc"]]
     tasks += [{"cls": c, "fn": "check_node_valid", **v} for c, v in CLASSES.items() if c in ("kLeastAbsErrors", "kMinPathError", "kLeastAbsErrorsCycles", "kMinPathErrorCycles")]
     for i, t in enumerate(tasks):
         t["tid"] = i
@@ -420,7 +450,7 @@ def _normalise(call):
         return ("check", [1, 4, w0, w1, ign, 0, 0], {})
     if fn == "check_reuse":
         return ("check_reuse", list(pos), {})
-    if fn in ("check_magnitude", "check_node_valid"):
+    if fn in ("check_magnitude", "check_node_valid", "check_conservation_options"):
         return (fn, list(pos), dict(kw))
     if fn == "check_structural":
         corr, k, w0, covn = pos
@@ -436,6 +466,8 @@ def _diag(task, call):
         return "graph-object-reused-after-in-place-edit"
     if fn == "check_magnitude":
         return "conservation-not-decided-exactly-at-large-magnitude"
+    if fn == "check_conservation_options":
+        return "non-conserving-flow-accepted-under-some-option-setting" if (pos and pos[0] != 0) else "conserving-flow-rejected-under-some-option-setting"
     if fn == "check_node_valid":
         a = dict(zip(["w0", "w1", "ign", "opt"], pos)); a.update(kw)
         neg = (a["w0"] == -1 and a["ign"] != 0) or (a["w1"] == -1 and a["ign"] != 1)
